@@ -43,6 +43,8 @@ func rulesC02(c *Ctx) {
 	ruleC02Parse(c)
 	ruleC02Scanner(c)
 	rulePageMatch(c, "C02.PAGEMATCH", "boltz")
+	// sort keys are decoded from the stored bytes: width/sign of every fixed-width decode
+	ruleDecodeWidth(c, "C02.DECODE")
 }
 
 // rulePageMatch: the skip/collected counters of the paged cursor count MATCHING rows: every
@@ -658,6 +660,42 @@ func ruleIdTieBreak(c *Ctx, rule string, fn *ssa.Function) {
 			}
 			ok = appended && site.Block() == fn.Blocks[0]
 			why = "the id tie-break is not appended unconditionally before the comparator loop"
+			// nothing may cut the extended list again (the tie-break is its last element)
+			if ok {
+				derived := map[ssa.Value]bool{}
+				for _, b := range fn.Blocks {
+					for _, in := range b.Instrs {
+						if call, isCall := in.(*ssa.Call); isCall {
+							if bi, isBi := call.Call.Value.(*ssa.Builtin); isBi && bi.Name() == "append" && call.Call.Args[0] == ssa.Value(fn.Params[1]) {
+								derived[call] = true
+							}
+						}
+					}
+				}
+				for changed := true; changed; {
+					changed = false
+					for _, b := range fn.Blocks {
+						for _, in := range b.Instrs {
+							if phi, isPhi := in.(*ssa.Phi); isPhi && !derived[phi] {
+								for _, e := range phi.Edges {
+									if derived[e] {
+										derived[phi] = true
+										changed = true
+									}
+								}
+							}
+						}
+					}
+				}
+				for _, b := range fn.Blocks {
+					for _, in := range b.Instrs {
+						if sl, isSl := in.(*ssa.Slice); isSl && derived[sl.X] && sl.High != nil {
+							ok = false
+							why = "the extended sort list is cut again at " + p.Pos(sl.Pos()) + " after the id tie-break was appended: with enough sort fields the tie-break is dropped and rows that tie on the rest collapse into one"
+						}
+					}
+				}
+			}
 		}
 	}
 	c.Check(ok, rule, name, p.Pos(fn.Pos()), "(\"id\", ascending) is appended unconditionally and the comparator loop ranges over the extended list", why)
